@@ -79,6 +79,37 @@ def gen_case(rng, n, malformed=False):
     return ops
 
 
+def gen_stale(rng):
+    """separately tagged stream: releasing a buffer that the cache itself has already returned to the
+    underlying allocator (after clearCache for a free buffer / clearAll for any buffer)"""
+    ops = ["create"]
+    n = rng.randint(1, 4)
+    sizes = [rng.choice([1, 10, 32, 40, 100, 200, 256]) for _ in range(n)]
+    for i, sz in enumerate(sizes):
+        ops.append("alloc %d s%d" % (sz, i))
+    ops.append("clearall")
+    i = rng.randrange(n)
+    ops.append("dealloc s%d %d" % (i, sizes[i]))
+    return ops
+
+
+STALE_SIG = "C18:stale-buffer-read-after-clear"
+
+
+def signature(r):
+    from vlib.flow import default_signature
+    tag = r.id.split(":")[0]
+    stale_case = tag == "stale" or (tag == "corpus" and "stale_after" in r.id) or tag in ("known", "s", "replay")
+    if stale_case and r.crash and "asan" in r.crash:
+        # only the stale-release shape: the crash must happen on a dealloc that follows a clear
+        ops = [l.split()[0] for l in r.ops]
+        if "clearall" in ops or "clearcache" in ops:
+            last = [l for l in r.impl if l.startswith("> ")]
+            if last and last[-1].startswith("> dealloc"):
+                return STALE_SIG
+    return default_signature(r)
+
+
 def generate(rng, tier):
     n = 400 if tier == "quick" else 6000
     out = []
@@ -87,6 +118,8 @@ def generate(rng, tier):
         out.append(("gen", gen_case(rng, ln)))
     for i in range(n // 10):
         out.append(("malformed", gen_case(rng, rng.choice([5, 20, 40]), malformed=True)))
+    for i in range(10):
+        out.append(("stale", gen_stale(rng)))
     return out
 
 
